@@ -15,6 +15,7 @@ Inductive pexpr :=
 | PGroupSizeGe (g : Z) (n : nat)
 | PLastDataPlus (g : Z) (d : Z)        (* group g non-empty and e.data = last(g).data + d *)
 | PTsGapLe (d : Z)                      (* history non-empty and e.ts - max ts of history <= d *)
+| PTsSinceFirstGe (d : Z)               (* history non-empty and e.ts - min ts of history >= d *)
 | PComplexOf (ph pat : Z)               (* complex event of this phenomenon/pattern *)
 | PRaiseOn (tss : list Z) (p : pexpr)   (* raises when e.ts is listed, otherwise p *)
 | PFalseOn (tss : list Z) (p : pexpr)   (* False when e.ts is listed, otherwise p *)
@@ -24,6 +25,10 @@ Definition of_bool (b : bool) : pres := if b then PTrue else PFalse.
 
 Definition hmax_ts (h : history ev) : option Z :=
   fold_left (fun o e => match o with None => Some (ev_ts e) | Some m => Some (Z.max m (ev_ts e)) end)
+            (hall h) None.
+
+Definition hmin_ts (h : history ev) : option Z :=
+  fold_left (fun o e => match o with None => Some (ev_ts e) | Some m => Some (Z.min m (ev_ts e)) end)
             (hall h) None.
 
 Fixpoint interp (p : pexpr) (e : ev) (h : history ev) : pres :=
@@ -39,6 +44,7 @@ Fixpoint interp (p : pexpr) (e : ev) (h : history ev) : pres :=
                          | l :: _ => of_bool (ev_data e =? ev_data l + d)
                          end
   | PTsGapLe d => match hmax_ts h with None => PFalse | Some m => of_bool (ev_ts e - m <=? d) end
+  | PTsSinceFirstGe d => match hmin_ts h with None => PFalse | Some m => of_bool (d <=? ev_ts e - m) end
   | PComplexOf ph pat => of_bool ((ev_kind e =? 1) && (ev_ph e =? ph) && (ev_pat e =? pat))
   | PRaiseOn tss q => if existsb (Z.eqb (ev_ts e)) tss then PRaise else interp q e h
   | PFalseOn tss q => if existsb (Z.eqb (ev_ts e)) tss then PFalse else interp q e h
